@@ -549,6 +549,7 @@ func verifNopLog(lvl lg.LogLevel, f string, args ...interface{}) {}
 func verifNewRun(cfg verifCfg) *verifRun {
 	r := &verifRun{cfg: cfg, tickC: make(chan time.Time), tickStep: 700 * time.Millisecond, stopCalls: map[*nsq.Consumer]int{}, breakBefore: -1}
 	verifCur = r
+	verifrt.FreeRun() // native replay: real goroutines, the harness waits for them itself (settle)
 	if verifrt.Symbolic() {
 		verifInstallStubs()
 		r.disk = &verifDisk{fds: map[*os.File]*verifHandle{}, gzs: map[*gzip.Writer]*verifGz{}, faultAt: -1}
@@ -838,6 +839,10 @@ func verifHasDirtyPages(path string) bool {
 
 // ---------------------------------------------------------------- oracle
 
+// verifGhost: a fact about counters that only the disk model keeps (number of fsyncs, links,
+// gzip members). The native run follows the same path but cannot see them, so there it is true.
+func verifGhost(c bool) bool { return c || !verifrt.Symbolic() }
+
 // boolean connectives without short-circuit control flow (operands are already evaluated, so
 // the executor builds one term instead of forking)
 func verifAnd(a, b bool) bool { return a && b }
@@ -999,6 +1004,8 @@ func (r *verifRun) settle() {
 		time.Sleep(200 * time.Microsecond)
 	}
 	fmt.Println("VERIF-NOTE settle timed out")
+	buf := make([]byte, 1<<16)
+	fmt.Printf("VERIF-NOTE stacks: %s\n", buf[:runtime.Stack(buf, true)])
 }
 
 // verifRouterParked (native replay): every router goroutine, and the topic discoverer's loop if
